@@ -165,8 +165,10 @@ _COOKIE_OCTETS = r'[\x21\x23-\x2b\x2d-\x3a\x3c-\x5b\x5d-\x7e]*'
 _COOKIE_VALUE = re.compile(r'^(?:%s|"%s")$' % (_COOKIE_OCTETS, _COOKIE_OCTETS))
 
 
-def cookie_pairs(v):
-    """-> ('VALID', [(name, value_alts)...]) or INVALID."""
+def cookie_pairs(v, dquotes=None):
+    """-> ('VALID', [(name, value_alts)...]) or INVALID.
+    dquotes: None = either reading of a quoted value is accepted; 'strip' / 'keep' = the ONE reading the implementation
+    was seen to apply to a non-empty quoted value (it must then apply it to every quoted value, the empty one included)."""
     if v.strip(OWS) == '':
         return INV('blank')
     pairs = []
@@ -177,6 +179,10 @@ def cookie_pairs(v):
             return INV()
         if len(value) >= 2 and value[0] == '"':
             alts = (value[1:-1], value)      # RFC 6265 does not say whether the DQUOTEs belong to the value
+            if dquotes == 'strip':
+                alts = (value[1:-1],)
+            elif dquotes == 'keep':
+                alts = (value,)
         else:
             alts = (value,)
         pairs.append((name, alts))
